@@ -14,6 +14,7 @@ RULE = (
     "through get_cg_coef incl. swap and j=0 rules); sampled part: random Euler angles / SU(2) elements per case. "
     "A case is non-trivial when j>=1/2 and the reference value is not in {0,+-1}; distinct = distinct argument tuple."
 )
+RULE += '  Also: product / inverse on elements that contain boosts, compared with NumPy inverses and the polar-decomposition Wigner rotation.'
 ASSUMPTIONS = [
     "double precision, CPU",
     "reference = Wigner/Racah formulas in rational arithmetic and exp(-i beta Jy) (vh/oracle/su2.py), unit-checked on textbook values",
